@@ -5,6 +5,7 @@ import (
 	"math"
 	"math/bits"
 	"strconv"
+	"strings"
 
 	"golang.org/x/tools/go/ssa"
 )
@@ -40,6 +41,28 @@ func (e *Engine) libNamed(pkgPath, name string) types.Type {
 const jwaPath = "github.com/lestrrat-go/jwx/v2/jwa"
 
 func (e *Engine) cryptoIntrinsic(fn *ssa.Function, full string, args []Value) (Value, bool) {
+	if strings.HasPrefix(full, "maps.Clone[") || full == "maps.clone" {
+		// shallow copy of a map (the runtime does it behind a linkname)
+		var m MapVal
+		switch x := args[0].(type) {
+		case MapVal:
+			m = x
+		case IfaceVal:
+			m, _ = x.val.(MapVal)
+		}
+		if m.m == nil {
+			return args[0], true
+		}
+		n := &MapObj{}
+		for _, en := range m.m.entries {
+			n.entries = append(n.entries, &MapEntry{key: en.key, val: copyVal(en.val)})
+		}
+		if _, isI := args[0].(IfaceVal); isI {
+			iv := args[0].(IfaceVal)
+			return IfaceVal{typ: iv.typ, val: MapVal{n}}, true
+		}
+		return MapVal{n}, true
+	}
 	switch full {
 	case "os.Open":
 		if e.parseResult == nil {
